@@ -23,6 +23,7 @@ def make_case(rng):
     pool = {"sub": [0.0, 0.0, 0.125, 0.25, 0.375, 0.0625], "small": [0.0, 0.5, 1.25, 2.0, 3.5, 0.75, 6.0], "mixed": [0.0, 0.25, 5.5, 11.0, 14.5, 40.0],
             "int": [0.0, 1.0, 2.0, 5.0, 9.0], "big": [0.0, 3.5, 99.5, 100.0, 120.5, 250.0]}[style]
     c["state"] = [rng.choice(pool) for _ in range(n)]
+    huge = False
     if rng.random() < 0.2:
         # totals on the edge: a species' amounts add up to an integer, or to 2^-33 below or above one (all dyadic: the sums are exact) -
         # the number of molecules is the floor of the total, not the nearest integer
@@ -38,8 +39,16 @@ def make_case(rng):
                 row[rng.randrange(nc)] = k + eps
             c["state"][s_ * nc:(s_ + 1) * nc] = row
         style = "edge_totals"
+    if style != "edge_totals" and rng.random() < 0.06:       # (not on top of the 2^-33 offsets: binary64 could not hold such a sum)
+        # amounts beyond the range of a 32-bit integer (5 fmol in one cell): totals are still floors of the real totals
+        k0 = rng.randrange(n)
+        c["state"][k0] = rng.choice([3.0e9, 2147483648.0, 2.5e9 + 0.5, 6.0e9])
+        style = "beyond_int32"
+        huge = True
     c["state_units"] = list(c["units"])          # handed over in engine units: no conversion rounding
     c["init"] = rng.choice(["auto", "auto", "redist", "Poisson", "none"])
+    if huge and c["init"] == "Poisson" and rng.random() < 0.85:
+        c["init"] = "redist"           # (the Poisson mode does not return from such a mean - finding F23 - and each such case costs a time-out)
     c["style"] = style
     c["policy"] = "on_iteration"
     c["seed"] = rng.choice([rng.randrange(2 ** 31), rng.randrange(2 ** 31), 0, 1, 2 ** 31 - 1])
@@ -127,9 +136,18 @@ def check(run):
                 "init_state_processing values x three engines; observed: sample 0 of the trajectory, twice. Coq replays the processing from the "
                 "seed (mt19937, generate_canonical, small-mean Poisson, the correction loop) where every amount is below 12 (branch 1) and "
                 "checks the stated invariants otherwise (branch 2). non-trivial = a mode other than 'none'")
-    core.decide(run, items, IMPORTS, "accept_C14", oracle, shard=25)
+    core.decide(run, items, IMPORTS, "accept_C14", oracle, known=known, shard=25)
+
+
+def known(it):
+    """F23: the 'Poisson' mode hands std::poisson_distribution<int> a mean beyond the range of int: set-up does not return"""
+    c, o = it["case"], it["obs"]
+    if "error" in o and "did not return" in o["error"] and c["init"] == "Poisson" and max(c["state"]) >= 2.0 ** 31:
+        return ("F23", "init_state_processing='Poisson' with an amount of 2^31 molecules or more in one entry: std::poisson_distribution<int> "
+                       "is handed a mean beyond the range of int and set-up does not return")
+    return None
 
 
 def replay(run, payload):
     sysgen.POOLS["space"] = ["cm", "mm", "dmm", "cmm", "µm", "nm", "dm"]
-    core.decide(run, build_items([payload["case"]]), IMPORTS, "accept_C14", oracle)
+    core.decide(run, build_items([payload["case"]]), IMPORTS, "accept_C14", oracle, known=known)
